@@ -22,9 +22,12 @@ HEADER = os.path.join(REPO, "source/include/gch/small_vector.hpp")
 INCLUDE = os.path.join(REPO, "source/include")
 ENGINE = os.path.join(VERIF, "engine")
 BUILD = os.path.join(VERIF, "build")
-OUT = os.path.join(VERIF, "out")
-REPLAYS = os.path.join(VERIF, "replays")
-EVIDENCE = os.path.join(VERIF, "evidence")
+# (mutation runs redirect their by-products so that /verif's evidence is never overwritten by a
+#  run against a modified tree)
+_ROOT = os.environ.get("SVMC_OUT_ROOT", VERIF)
+OUT = os.path.join(_ROOT, "out")
+REPLAYS = os.path.join(_ROOT, "replays")
+EVIDENCE = os.path.join(_ROOT, "evidence")
 NCPU = int(os.environ.get("SVMC_JOBS", "16"))
 
 
